@@ -9,7 +9,8 @@ From TV Require Import Common.Harness Common.ObsCore C08.Model C08.Law.
 Import ListNotations.
 Open Scope nat_scope.
 
-(* per observable: (object, field, number of ObserverChangeNotifier, [(handler, target, ref_count)]) *)
+(* per observable: (object, field, number of ObserverChangeNotifier (on trait_added: including the
+   TraitAddedObserver maintainers), [(handler, target, ref_count)]) *)
 Definition hooksum := list (oid * fname * nat * list (nat * oid * nat)).
 (* None = identical to the summary after the previous step *)
 Definition case := (nat * list (op * obs * option hooksum))%type.
@@ -29,7 +30,7 @@ Definition user_count (H : list hook) (x : oid) (f : fname) (k : hkey) : nat :=
 
 Definition sum_entry_ok (H : list hook) (e : oid * fname * nat * list (nat * oid * nat)) : bool :=
   let '(x, f, nm, us) := e in
-  Nat.eqb (length (maint_on H x f)) nm
+  Nat.eqb (length (maint_on H x f) + (if Nat.eqb f TA then length (added_on H x) else 0)) nm
   && forallb (fun u => let '(k, r, n) := u in Nat.eqb (user_count H x f (k, r)) n) us
   && Nat.eqb (length (users_on H x f)) (fold_left (fun a u => a + snd u) us 0).
 Definition sum_total (s : hooksum) : nat :=
@@ -59,7 +60,7 @@ Fixpoint corr_hist (i : Z) (st : state) (ih : heap) (prev : hooksum)
 Definition strip (c : case) : list (op * obs) := map fst (snd c).
 
 Definition corr_codes (c : case) : list Z := corr_hist 0%Z (init (fst c)) (fun _ _ => []) [] (snd c).
-Definition law_codes (c : case) : list Z := law_hist 0%Z (fun _ _ => []) [] (strip c).
+Definition law_codes (c : case) : list Z := law_hist 0%Z init_traits (fun _ _ => []) [] (strip c).
 
 (* Is every operation of the history edge-acyclic for the live registrations (the hypothesis
    of the theorems)?  Evaluated on the model run; code 100*step + 1 where it is not. *)
